@@ -795,6 +795,7 @@ func (c *compiler) VisitCharLit(e *ast.CharLit) ast.VisitResult {
 // so we need to do some work here
 func (c *compiler) VisitStringLit(e *ast.StringLit) ast.VisitResult {
 	constStr := c.mod.NewGlobalDef("", irutil.NewCString(e.Value))
+	constStr.Linkage = enum.LinkageInternal // unnamed, so it must not collide with the literals of other modules
 	// call the ddp-runtime function to create the ddpstring
 	c.commentNode(c.cbb, e, constStr.Name())
 	dest := c.NewAlloca(c.ddpstring.typ)
